@@ -11,6 +11,7 @@ import (
 	"net"
 	"os"
 	"strings"
+	"time"
 
 	"github.com/bokysan/socketace/v2/internal/client/upstream"
 	"github.com/bokysan/socketace/v2/internal/util/addr"
@@ -28,12 +29,13 @@ func cCases(rec *vcommon.Rec) []*caseDesc {
 			out = append(out, &caseDesc{Monitor: "C", Seed: rec.Seed(), Carrier: ep, Cert: "good", Peer: "real-client-plain-scheme", Require: req})
 		}
 	}
+	// observation only (DESIGN.md C04, interpretation): a hand-written client that ignores the StartTLS offer of the real server
+	out = append(out, &caseDesc{Monitor: "C", Seed: rec.Seed(), Carrier: "tcp", Cert: "good", Peer: "scripted-client-ignoring-starttls-offer"})
+	if rec.Thorough() {
+		// an https endpoint that was given no certificate: it binds the port and never serves it
+		out = append(out, &caseDesc{Monitor: "C", Seed: rec.Seed(), Carrier: "wss", Cert: "none", Peer: "scripted-plaintext-client"})
+	}
 	return out
-}
-
-type pipeRW struct {
-	io.Reader
-	io.Writer
 }
 
 func hostOf(url string) string { return url[strings.Index(url, "://")+3:] }
@@ -51,7 +53,11 @@ func runC(rec *vcommon.Rec, c *caseDesc) {
 	verifhook.Events()
 	verifhook.Record(true)
 	defer verifhook.Record(false)
-	p, err := e2e.Start(e2e.Options{Carrier: c.Carrier, NoClient: true, Tag: "c"})
+	if c.Peer == "scripted-client-ignoring-starttls-offer" {
+		observeIgnoredOffer(rec, c)
+		return
+	}
+	p, err := e2e.Start(e2e.Options{Carrier: c.Carrier, NoClient: true, Tag: "c", NoServerCert: c.Cert == "none"})
 	if err != nil {
 		rec.Inconclusive("C: endpoint could not be started: "+e2e.Clip(err.Error(), 200), c)
 		return
@@ -59,7 +65,7 @@ func runC(rec *vcommon.Rec, c *caseDesc) {
 	defer p.Close()
 	host := hostOf(p.ServerURL)
 	obs := map[string]interface{}{"endpoint": p.ServerURL}
-	answered, served := false, false
+	answered, served, cliSecure := false, false, false
 	left := "answered-or-closed"
 
 	switch c.Peer {
@@ -170,25 +176,99 @@ func runC(rec *vcommon.Rec, c *caseDesc) {
 		obs["app_read_error"] = ao.readErr
 		if cc != nil {
 			obs["client_reports"] = fmt.Sprintf("%v/%s", cc.Secure(), cc.SecurityTech())
-			served = true
+			cliSecure = cc.Secure()
 		}
 	}
 	sess := serverSessions()
 	obs["server_sessions"] = sess
 	obs["peer"] = left
+	rec.Note("C: observed", obs)
 	rec.Case(key, true)
 	rec.Stat("C:cases", 1)
-	rec.Seen("C:cell(endpoint,peer,require)", fmt.Sprintf("%s|%s|require=%v", c.Carrier, c.Peer, c.Require))
+	rec.Seen("C:cell(endpoint,peer,require)", fmt.Sprintf("%s|cert=%s|%s|require=%v", c.Carrier, c.Cert, c.Peer, c.Require))
 	rec.Seen("C:outcome", fmt.Sprintf("%s|%s -> %s, sessions on the server: %d", c.Carrier, c.Peer, left, len(sess)))
 	rec.Sample(map[string]interface{}{"monitor": "C", "endpoint": c.Carrier, "peer": c.Peer, "outcome": left, "server_sessions": len(sess)})
 
+	// "never completes a plaintext session": a session the server does not call secure, an answer to
+	// the plaintext handshake, or a logical connection served over a session that is not secure at
+	// both ends. (A TLS endpoint cannot offer StartTLS; should one ever answer in clear and upgrade,
+	// that session is TLS-protected and is recorded as an observation, not judged here.)
+	plainSess := 0
+	for _, s := range sess {
+		if !s.Secure {
+			plainSess++
+		}
+	}
 	if answered {
 		rec.Violation(sig+":handshake-answered-in-plaintext", c, obs)
 	}
-	if served {
-		rec.Violation(sig+":logical-connection-served", c, obs)
+	if plainSess > 0 {
+		rec.Violation(sig+":plaintext-session-established", c, obs)
 	}
-	if len(sess) > 0 {
-		rec.Violation(sig+":session-established", c, obs)
+	if served && (plainSess > 0 || !cliSecure) {
+		rec.Violation(sig+":logical-connection-served-in-plaintext", c, obs)
+	} else if served {
+		rec.Seen("C:observation", c.Carrier+": the endpoint served a plain-scheme client over a session both ends call secure (StartTLS)")
+	}
+}
+
+// observeIgnoredOffer records (never judges) what the real server does with a hand-written client that
+// sees "Capabilities: StartTLS" and upgrades without asking for it. The packet server's own comment
+// makes the upgrade the client's choice; the property scripts misbehaving servers, not clients.
+func observeIgnoredOffer(rec *vcommon.Rec, c *caseDesc) {
+	p, err := e2e.Start(e2e.Options{Carrier: c.Carrier, NoClient: true, Tag: "c", ServerCert: certOf(c.Cert)})
+	if err != nil {
+		rec.Inconclusive("C: endpoint could not be started: "+e2e.Clip(err.Error(), 200), c)
+		return
+	}
+	defer p.Close()
+	conn, err := net.Dial("tcp", hostOf(p.ServerURL))
+	if err != nil {
+		rec.Inconclusive("C: cannot dial the endpoint: "+err.Error(), c)
+		return
+	}
+	defer conn.Close()
+	before := verifhook.Count("server.session")
+	verifhook.Events()
+	verifhook.Record(true)
+	defer verifhook.Record(false)
+	var resp bytes.Buffer
+	readBlocks := func(n int) bool {
+		buf := make([]byte, 1024)
+		for bytes.Count(resp.Bytes(), []byte("\r\n\r\n")) < n {
+			k, err := conn.Read(buf)
+			e2e.Bump(k)
+			resp.Write(buf[:k])
+			if err != nil {
+				return false
+			}
+		}
+		return true
+	}
+	done := e2e.Go(func() {
+		conn.Write([]byte("X-SOCKETACE / HTTP/1.1\r\nAccepts-Protocol-Version: " + version.ProtocolVersion + "\r\nUser-Agent: socketace/scripted\r\n\r\n"))
+		if !readBlocks(1) {
+			return
+		}
+		conn.Write([]byte("GET / HTTP/1.1\r\nUser-Agent: socketace/scripted\r\nUpgrade: socketace/" + version.ProtocolVersion + "\r\nConnection: upgrade\r\n\r\n"))
+		if !readBlocks(2) {
+			return
+		}
+		for verifhook.Count("server.session") == before {
+			time.Sleep(2 * time.Millisecond)
+		}
+	})
+	o := e2e.Wait(done)
+	r := resp.String()
+	sess := serverSessions()
+	offered := strings.Contains(strings.ToLower(r), "capabilities: starttls")
+	got101 := strings.Contains(r, " 101 ")
+	rec.Case(c.key(), o == e2e.Done)
+	rec.Note("C: observed (not judged)", map[string]interface{}{"response": e2e.Clip(fmt.Sprintf("%q", r), 500), "server_sessions": sess, "wait": o.String()})
+	if offered && got101 && len(sess) > 0 && !sess[len(sess)-1].Secure {
+		rec.Seen("C:observation", "tcp, server with certificate: a hand-written client that ignores the advertised StartTLS and upgrades without it is served in plaintext (server.session secure=false); outside the property, recorded only")
+		rec.Stat("C:observation:client-ignoring-starttls-offer-served-in-plaintext", 1)
+	} else {
+		rec.Seen("C:observation", fmt.Sprintf("tcp, server with certificate, client ignoring the offer: offered=%v got101=%v sessions=%v", offered, got101, sess))
 	}
 }
